@@ -12,7 +12,7 @@ import (
 func (k Keeper) GetCoinbaseAddress(ctx sdk.Context, overrideProposerAddress sdk.ConsAddress) (common.Address, error) {
 	proposerAddress := sdk.ConsAddress(ctx.BlockHeader().ProposerAddress)
 	if len(overrideProposerAddress) > 0 {
-		proposerAddress = ctx.BlockHeader().ProposerAddress
+		proposerAddress = overrideProposerAddress
 	}
 
 	isEmptyProposerAddress := func() bool {
